@@ -224,7 +224,9 @@ def gen_spec(rng, fi, fmt, k=None, n=None, variant=None):
             cut, wf = k - 1, {"g1": variant == 1, "g2": False}
         names = ["g1\\" + nm for nm in chosen[:cut]] + ["g2\\" + nm for nm in chosen[cut:]]
     elif fmt in ("csv", "pkl"):
-        names = rng.sample(POOL_RICH, k)
+        names = rng.sample(POOL_RICH + ["T [kN/m]"], k)        # unit brackets with a '/' (not for h5/tdms: group separator)
+    elif fmt in ("ts", "tda", "dat"):
+        names = rng.sample(POOL_PLAIN + ["Vel[m/s]"], k)
     else:
         names = rng.sample(POOL_PLAIN, k)
     if fmt == "h5":
